@@ -190,6 +190,16 @@ func Tier() string { return tier }
 // Thorough reports whether the thorough tier is running.
 func Thorough() bool { return tier == "thorough" }
 
+// Size scales a container-size bound of a "long"/"large"/"soak" generator: the
+// thorough tier explores containers up to four times as large as the quick tier
+// (a case found there replays in either tier: a case is a value).
+func Size(n int) int {
+	if Thorough() {
+		return 4 * n
+	}
+	return n
+}
+
 // Shard returns the shard index of this process.
 func Shard() int { return shard }
 
